@@ -1926,9 +1926,15 @@ impl JsObject {
             if let PropertyKey::String(ref s) = key
                 && s.as_str() == "length"
             {
-                if let JsValue::Number(n) = value {
-                    let new_len = n as usize;
-                    elements.resize(new_len, JsValue::Undefined);
+                // Only a valid array length (an integer in 0..=2^32-1) resizes; anything else
+                // (NaN, negative, fractional, too large) is not a length and is ignored here -
+                // script assignments get their RangeError from the VM before reaching this point
+                if let JsValue::Number(n) = value
+                    && n >= 0.0
+                    && n <= u32::MAX as f64
+                    && math::fract(n) == 0.0
+                {
+                    elements.resize(n as usize, JsValue::Undefined);
                 }
                 return;
             }
